@@ -236,3 +236,7 @@ for n, tier in ((8, "quick"), (12, "thorough")):
 
 # c02_separator_* (ends_with_prefix / starts_with_parenthese over pairs of statements, harness/src/c02_separator.rs) are written but
 # not registered: building two Statement values with symbolic shapes costs 2.15 M symex steps and the SAT conversion runs out of 16 GB.
+
+# c08_se_binary_inline (harness/src/c08_inline.rs: the real has_side_effects entered on a binary node, evaluate and the five helper
+# functions stubbed, the recursive call on leaf children real) is written but not registered: CBMC was still in symbolic execution
+# at 19 GB after 20 minutes (the dispatcher's arms are explored at both levels). The inline arms stay outside the claim.
